@@ -409,7 +409,7 @@ Proof.
 Qed.
 
 Lemma transform_ast_none : forall F names ts s,
-  (forall x, In x ts -> ours n0 x = false) -> transform_ast E n0 F names ts s = Ret s false.
+  (forall x, In x ts -> ours n0 x = false) -> transform_ast E IO n0 F names ts s = Ret s false.
 Proof.
   intros F names ts. induction ts as [|t r IH]; intros s H; cbn; [reflexivity|].
   rewrite (H t (or_introl eq_refl)). apply IH. intros x Hx. apply H. right. exact Hx.
@@ -427,7 +427,7 @@ Proof.
   rewrite F6 in A4.
   assert (Hadv : forall j, is_advice (slot s j) = false) by (intros j; rewrite A1; apply Hb).
   assert (Hres : existsb (ours n0) (cleanup_l s) = false) by (rewrite A4; apply existsb_ours_false; exact Hcl).
-  assert (Hts : forall F names, transform_ast E n0 F names (ast_l s) s = Ret s false)
+  assert (Hts : forall F names, transform_ast E IO n0 F names (ast_l s) s = Ret s false)
     by (intros F names; apply transform_ast_none; rewrite A2; exact Hast).
   unfold interact.
   assert (Hmain : let '(s1, o) := interact_main E IO n0 c s in s1 = s /\ co_path o = false /\ co_escaped o = None).
